@@ -11,6 +11,7 @@ import (
 	"errors"
 	"fmt"
 	"hash"
+	"reflect"
 	"sort"
 	"strconv"
 	"strings"
@@ -52,6 +53,46 @@ type expect struct {
 	wantAT                  bool
 	idInATField             bool // token exchange returns the ID token in access_token
 	fragment                bool
+	nonceFilled             bool // Either-case: the request had no nonce and the storage's custom claim "nonce" shows up
+	filled                  []string
+}
+
+// evilJSON: evilClaims as they look after a JSON round trip (what a decoded token payload holds).
+var evilJSON = func() map[string]any {
+	b, _ := json.Marshal(evilClaims)
+	var m map[string]any
+	_ = json.Unmarshal(b, &m)
+	return m
+}()
+
+// isEvil: the token's claim name carries the storage's colliding custom value.
+func isEvil(claims map[string]any, private map[string]any, name string) bool {
+	if _, custom := private[name]; !custom {
+		return false
+	}
+	v, ok := claims[name]
+	return ok && reflect.DeepEqual(v, evilJSON[name])
+}
+
+// overridden: custom claims must never displace a registered claim the token kind carries. pinned lists the
+// registered names the statement (or the rest of this oracle) determines for this token; for every other registered
+// name (absent from the token on its own, e.g. acr, sid, act, nonce of a request without nonce) the statement is
+// silent about a custom claim of that name: Either, recorded in filled.
+func overridden(claims map[string]any, private map[string]any, pinned []string, e *expect) []string {
+	var bad []string
+	for name := range private {
+		if name == "x" || !isEvil(claims, private, name) {
+			continue
+		}
+		if has(pinned, name) {
+			bad = append(bad, name)
+		} else if !has(e.filled, name) {
+			e.filled = append(e.filled, name)
+		}
+	}
+	sort.Strings(bad)
+	sort.Strings(e.filled)
+	return bad
 }
 
 func jsonNum(f float64) string { return strconv.FormatFloat(f, 'f', -1, 64) }
@@ -315,6 +356,9 @@ func judge(d *driver, o *flowOut) engine.Result {
 		rtp = "y"
 	}
 	shape := fmt.Sprintf("id=%s at=%s rt=%s uc=%s", idp, atKind, rtp, uc)
+	if len(e.filled) > 0 {
+		shape += " custom-fills-absent" // Either: custom claims named like registered claims the token does not carry
+	}
 	if vd != nil {
 		return engine.Bad(rule, "bad:"+vd.what, sig(vd.what), vd.detail+" | response "+shape)
 	}
@@ -326,6 +370,9 @@ func judge(d *driver, o *flowOut) engine.Result {
 
 func idVerifier(e *expect, issuer, client string, ks oidc.KeySet, algs []string) *rp.IDTokenVerifier {
 	nonce := e.nonce
+	if e.nonceFilled {
+		nonce = "evil"
+	}
 	return rp.NewIDTokenVerifier(issuer, client, ks, rp.WithSupportedSigningAlgorithms(algs...),
 		rp.WithNonce(func(context.Context) string { return nonce }))
 }
@@ -346,6 +393,9 @@ func checkIDToken(d *driver, o *flowOut, ks *jwks, idt, at string) (*verdict, bo
 	if p.alg != e.alg || p.kid != e.kid {
 		return &verdict{"id-header", fmt.Sprintf("ID token header alg=%q kid=%q, current signing key is alg=%q kid=%q", p.alg, p.kid, e.alg, e.kid)}, false
 	}
+	private := privateSets[d.c.private]
+	e.nonceFilled = e.nonce == "" && isEvil(p.claims, private, "nonce")
+	amrFilled := len(e.amr) == 0 && isEvil(p.claims, private, "amr")
 	v := idVerifier(e, e.issuer, e.client, ks, ks.algs())
 	var claims *oidc.IDTokenClaims
 	var err error
@@ -373,11 +423,11 @@ func checkIDToken(d *driver, o *flowOut, ks *jwks, idt, at string) (*verdict, bo
 		return bad("id-azp", "azp %q, client %q", claims.AuthorizedParty, e.client)
 	case claims.Subject != e.subject:
 		return bad("id-sub", "sub %q, request's subject %q", claims.Subject, e.subject)
-	case claims.Nonce != e.nonce:
+	case claims.Nonce != e.nonce && !e.nonceFilled:
 		return bad("id-nonce", "nonce %q, request's nonce %q", claims.Nonce, e.nonce)
 	case !within(claims.GetAuthTime(), e.authTime.Add(-e.skew), e.authTime):
 		return bad("id-auth-time", "auth_time %v, request's %v (skew %v)", claims.GetAuthTime().UTC(), e.authTime.UTC(), e.skew)
-	case !sameSet(claims.AuthenticationMethodsReferences, e.amr):
+	case !sameSet(claims.AuthenticationMethodsReferences, e.amr) && !amrFilled:
 		return bad("id-amr", "amr %v, request's %v", claims.AuthenticationMethodsReferences, e.amr)
 	case !within(claims.GetIssuedAt(), now.Add(-e.skew), now):
 		return bad("id-iat", "iat %v, issued at %v (skew %v)", claims.GetIssuedAt().UTC(), now.UTC(), e.skew)
@@ -393,6 +443,26 @@ func checkIDToken(d *driver, o *flowOut, ks *jwks, idt, at string) (*verdict, bo
 		if want := refHalfHash(e.alg, e.code); claims.CodeHash != want {
 			return bad("id-c-hash", "c_hash %q, left-half hash of the code is %q", claims.CodeHash, want)
 		}
+	}
+	if cid, ok := p.claims["client_id"]; ok && cid != e.client {
+		return bad("id-client-id", "client_id %v, client %q", cid, e.client)
+	}
+	// sibling claims: no custom claim may stand where the token has a registered claim of that name
+	pinned := []string{"iss", "sub", "aud", "exp", "iat", "azp", "auth_time", "client_id"}
+	if e.nonce != "" {
+		pinned = append(pinned, "nonce")
+	}
+	if len(e.amr) > 0 {
+		pinned = append(pinned, "amr")
+	}
+	if at != "" {
+		pinned = append(pinned, "at_hash")
+	}
+	if e.code != "" {
+		pinned = append(pinned, "c_hash")
+	}
+	if ov := overridden(p.claims, private, pinned, e); len(ov) > 0 {
+		return bad("id-claim-overridden", "custom claims %v of the storage displaced registered claims of the ID token", ov)
 	}
 	// user claims
 	anyPresent := false
@@ -456,8 +526,18 @@ func checkJWTAccess(d *driver, o *flowOut, ks *jwks, at string, stored *refstore
 	case !within(claims.GetExpiration(), stored.Exp.Add(-e.skew), stored.Exp.Add(e.skew)):
 		return bad("at-exp", "exp %v, stored token expires %v", claims.GetExpiration().UTC(), stored.Exp.UTC())
 	}
-	if _, ok := p.claims["scope"]; ok && !sameSet(claims.Scopes, e.granted) {
+	private := privateSets[d.c.private]
+	if _, ok := p.claims["scope"]; ok && !sameSet(claims.Scopes, e.granted) && !isEvil(p.claims, private, "scope") {
 		return bad("at-scope", "scope %v, granted %v", claims.Scopes, e.granted)
+	}
+	if claims.JWTID != "" && claims.JWTID != stored.ID {
+		return bad("at-jti", "jti %q, stored token id %q", claims.JWTID, stored.ID)
+	}
+	if _, ok := p.claims["nbf"]; ok && !within(claims.NotBefore.AsTime(), now.Add(-e.skew), now) {
+		return bad("at-nbf", "nbf %v, issued at %v (skew %v)", claims.NotBefore.AsTime().UTC(), now.UTC(), e.skew)
+	}
+	if ov := overridden(p.claims, private, []string{"iss", "sub", "aud", "exp", "iat", "nbf", "jti", "client_id"}, e); len(ov) > 0 {
+		return bad("at-claim-overridden", "custom claims %v of the storage displaced registered claims of the access token", ov)
 	}
 	return nil
 }
